@@ -17,7 +17,7 @@ EXPLANATION = (
     'cell measures computed independently from the cell bounds; NaN bookkeeping is checked for single-cell, row and '
     'all-NaN patterns and for sliver overlaps. Bounded over grid pairs, surface pressures and level sets.')
 ASSUMPTIONS = ['A1/A2: float64; tol 1e-12', 'bounded over grid pairs / surface pressures / level sets (enumerated)',
-               'the SMT index-identity proofs planned in DESIGN are not built']
+               ]
 TOL = 1e-12
 
 
@@ -27,7 +27,9 @@ def _lat_sets():
   for nm, g in (('T21', sh.Grid.T21()), ('TL31', sh.Grid.TL31()), ('tiny9', common.make_grid(4, 5, 12, 9, 'gauss')),
                 ('equi18', common.make_grid(4, 5, 36, 18, 'equiangular')), ('poles19', common.make_grid(4, 5, 36, 19, 'equiangular_with_poles')),
                 ('equi7', common.make_grid(3, 4, 13, 7, 'equiangular')), ('off0.1', common.make_grid(4, 5, 12, 9, 'gauss', 'real', 0.1)),
-                ('offsmall', common.make_grid(4, 5, 36, 18, 'equiangular', 'real', 1e-4))):
+                ('offsmall', common.make_grid(4, 5, 36, 18, 'equiangular', 'real', 1e-4)),
+                # offsets that put the 0 / 2 pi seam inside the longitude array: negative, and larger than one cell
+                ('offneg', common.make_grid(4, 5, 12, 9, 'gauss', 'real', -0.21)), ('offbig', common.make_grid(3, 4, 13, 7, 'equiangular', 'real', 1.13))):
     out[nm] = g
   return out
 
@@ -47,10 +49,10 @@ def _lon_widths(lon, period=2 * np.pi):
 
 
 def _pairs(tier):
-  names = ['T21', 'tiny9', 'equi18', 'poles19', 'equi7', 'off0.1'] + (['TL31'] if tier == 'thorough' else [])
+  names = ['T21', 'tiny9', 'equi18', 'poles19', 'equi7', 'off0.1', 'offneg', 'offbig'] + (['TL31'] if tier == 'thorough' else [])
   pairs = [(a, b) for a in names for b in names if tier == 'thorough' or (a, b) in {
       ('T21', 'tiny9'), ('tiny9', 'T21'), ('equi18', 'equi7'), ('equi7', 'equi18'), ('poles19', 'equi18'), ('tiny9', 'tiny9'),
-      ('off0.1', 'tiny9'), ('T21', 'poles19'), ('equi18', 'off0.1')}]
+      ('off0.1', 'tiny9'), ('T21', 'poles19'), ('equi18', 'off0.1'), ('offneg', 'tiny9'), ('equi18', 'offbig'), ('offbig', 'offneg')}]
   return pairs
 
 
